@@ -113,7 +113,7 @@ def clist(items):
     return '[' + ';'.join(items) + ']'
 
 
-def run_cases_v(pid, name, prelude, terms, shard=400, timeout=600):
+def run_cases_v(pid, name, prelude, terms, shard=400, timeout=600, case_type=None):
     """terms: list of Coq terms of the case type; prelude defines `check : <case type> -> Z` (0 = agreement).
     Returns dict(evaluated, bad=[(index, code)], errors=[...])."""
     d = os.path.join(WORK, pid)
@@ -127,7 +127,7 @@ def run_cases_v(pid, name, prelude, terms, shard=400, timeout=600):
         fn = os.path.join(d, '%s_%03d.v' % (name, k))
         with open(fn, 'w') as f:
             f.write(prelude + '\n')
-            f.write('Definition cases := [\n' + ';\n'.join(sh_terms) + '].\n')
+            f.write('Definition cases%s := [\n' % (' : list ' + case_type if case_type else '') + ';\n'.join(sh_terms) + '].\n')
             f.write('Definition codes := List.map check cases.\n')
             f.write('Eval vm_compute in (List.length cases, codes).\n')
         files.append(fn)
